@@ -109,7 +109,7 @@ impl AccountTrees {
         }
     }
 
-    fn from(account_names: &[String], strict_mode: bool) -> Result<AccountTrees, tackler::Error> {
+    fn from(account_names: &[String], _strict_mode: bool) -> Result<AccountTrees, tackler::Error> {
         let defined_accounts =
             account_names
                 .iter()
@@ -127,8 +127,9 @@ impl AccountTrees {
                     },
                 )?;
 
-        let synthetic_parents = if strict_mode {
-            // Synthetic Account Parents are only needed in strict mode
+        // Synthetic account parents are needed in both modes: reports resolve every
+        // ancestor of a posted account, also when strict mode is off.
+        let synthetic_parents = {
             let mut sap = HashMap::new();
             for atn_entry in defined_accounts.iter() {
                 if !&defined_accounts.contains_key(atn_entry.1.parent.as_str()) {
@@ -138,8 +139,6 @@ impl AccountTrees {
                 }
             }
             sap
-        } else {
-            HashMap::new()
         };
         Ok(AccountTrees {
             defined_accounts,
